@@ -187,6 +187,8 @@ TECHNIQUE = ("model-based property testing of call histories (Hypothesis-generat
 LEVEL_TEXT = ("Generated histories: 700 / 8,000 graphs (generated, arbitrary arc subsets, complete) with removal "
               "sequences of up to 40 / 64 calls at order 2 and shorter at orders 3 and 4, under all four flag "
               "combinations incl. mixed sequences; after every returning call the accessor, the latter map, the "
-              "reported arc, the pre-computed scores and the arc-set model must agree exactly.")
-LEVEL_NOTE = ("Trusted: the arc-set model; calculate_intersection_score as the definition of the score (only its "
-              "shape and support are asserted independently); accessor_to_latter_map (checked by C14).")
+              "reported arc, the scores (library's and an independent re-derivation) and the arc-set model must agree "
+              "exactly; verbose output and Fortran/strided/offset accessors are drawn for a share of the histories.")
+LEVEL_NOTE = ("Trusted: the arc-set model; reference_scores() as the definition of the intersection score (re-derived "
+              "from the pinned implementation and its doctest, compared exactly at every step); "
+              "accessor_to_latter_map as the meaning of 'describe the same graph' (checked by C14).")
